@@ -101,6 +101,8 @@ def filt(rule, kind, val):
         return rule.are_sub_modules_of(val)
     if kind == "regex":
         return rule.have_name_matching(val)
+    if kind == "glob":
+        return rule.have_name_containing(val)
     raise ValueError(kind)
 
 
@@ -619,6 +621,22 @@ def perm_specs(ns):
     return out
 
 
+def glob_batch_specs(ns):
+    """Batches of partial names whose match sets overlap or nest (a later pattern may match nothing
+    that an earlier one has not matched already): the listing order must not matter."""
+    if len(ns) < 3:
+        return []
+    a, b = ns[1], ns[2]
+    last = a.split(".")[-1]
+    fams = [[a + "*", a], ["*" + last, a], ["*", b], [a, a + "*", "*" + last + "*"], [b, "*", a]]
+    out = []
+    for g in fams:
+        for verb, imp, exc in SHAPES:
+            out.append(dict(verb=verb, imp=imp, exc=exc, sk="glob", subj=list(g), ok="named", obj=[b]))
+            out.append(dict(verb=verb, imp=imp, exc=exc, sk="named", subj=[b], ok="glob", obj=list(g)))
+    return out
+
+
 def check_perm(ns, I, spec, ev, res):
     base = run_rule(mk(spec), ev)
     sp = list(itertools.permutations(spec["subj"]))
@@ -1067,7 +1085,7 @@ def run_shard(shard, tier, seed):
         for ns, I in shard_graphs(shard, seed):
             ev = build(ns, I, seed)
             res.states += 1
-            for spec in perm_specs(ns):
+            for spec in perm_specs(ns) + glob_batch_specs(ns):
                 v = check_perm(ns, I, spec, ev, res)
                 if v:
                     viol.append((v[0], dict(v[1], part=part, modules=ns, imports=I, seed=seed), v[2], v[3]))
